@@ -165,7 +165,7 @@ class Tiles:
                 i = n + i
             if 0 <= i < n - 1:  # not edge tile
                 return tile_sz
-            if i == n - 1:  # edge tile
+            if 0 <= i == n - 1:  # edge tile
                 return total_sz - (i * tile_sz)
             # out of index case
             raise IndexError(f"Index {idx} is out of range")
